@@ -100,6 +100,12 @@ def scenario(case):
                 b.top.add(h.Signal(name="zz_late", width=1))
             except Exception as ex:  # noqa
                 out["edit_refused"] = common.errstr(ex)
+        if case.get("edit") == "reassign":
+            # an attribute the module still has is assigned again (same name, same kind, nothing connected to it)
+            try:
+                b.top.zz_spare = h.Signal(width=1)
+            except Exception as ex:  # noqa
+                out["edit_refused"] = common.errstr(ex)
         out["retry_default"] = try_export(b.top)
         out["retry_again"] = try_export(b.top)
         offending = None
@@ -250,7 +256,7 @@ def genrun_trace(plan):
 def gen_events(rng, depth=0):
     """a random event tree: the call, what its body does this time (nested calls, catch or not, return / raise / return None)"""
     ev = {"c": rng.randrange(4)}
-    how = rng.choice(["ok", "ok", "ok", "raise", "none"])
+    how = rng.choice(["ok", "ok", "ok", "raise", "none", "interrupt", "exit"])
     if how == "ok":
         ev["ok"] = 0
     else:
@@ -278,7 +284,7 @@ def nested_trace(evs):
             cursor.append(sub)
             try:
                 G(w=sub["c"]) if len(cursor) % 2 else G(P(w=sub["c"]))
-            except Exception:  # noqa
+            except BaseException:  # noqa
                 if not ev.get("catches"):
                     raise
             finally:
@@ -289,6 +295,10 @@ def nested_trace(evs):
             return m
         if ev["how"] == "none":
             return None
+        if ev["how"] == "interrupt":
+            raise KeyboardInterrupt("planned interrupt")  # user code is not ended by `Exception`s only
+        if ev["how"] == "exit":
+            raise SystemExit(3)
         raise ValueError("planned failure")
 
     body.__name__ = "G"
@@ -303,7 +313,7 @@ def nested_trace(evs):
             if not any(m is x for x in mods):
                 mods.append(m)
             res = {"module": next(k for k, x in enumerate(mods) if x is m), "name": m.name}
-        except Exception as ex:  # noqa
+        except BaseException as ex:  # noqa
             res = "circular" if "circular" in str(ex) else "failed"
         done = sorted(c.params.w for c in cache.done if c.gen is G)
         trace.append({"result": res, "done": done, "pending": len(cache.pending), "stack": len(cache.stack), "ran": list(ran)})
@@ -407,11 +417,12 @@ def run(ctx):
         jobs.append({"kind": "fault", "design": dd, "fault": f"extra_connection_last_on_{kindkey}", "module": "Top", "unrelated": unrelated, "style": "proc"})
     # failures in the middle of a pass: the n-th Module.add of the elaboration raises (any exception type); anonymous tops; edits afterwards
     mid_designs = good + [mid_corpus_design()]
-    for d in mid_designs:
+    for d0 in mid_designs:
+        d = with_spare(d0)
         nths = list(range(1, 13)) if not ctx.quick else sorted(rng.sample(range(1, 13), 5))
         for nth in nths:
             jobs.append({"kind": "midpass", "design": d, "nth": nth, "exc": rng.choice(["RuntimeError", "TypeError", "ValueError", "KeyError", "AssertionError"]),
-                         "anon_top": rng.random() < 0.4, "edit": rng.choice([None, "signal"]), "unrelated": unrelated})
+                         "anon_top": rng.random() < 0.4, "edit": rng.choice([None, "signal", "reassign"]), "unrelated": unrelated})
     mo = ctx.drv.run([designs.sem_line(j, None) for j in jobs])
     jobs = [j for j, o in zip(jobs, mo) if j["kind"] in ("inject", "midpass") or "error" in o["src"]]
     results = common.pmap_fresh(scenario, jobs)
@@ -564,6 +575,14 @@ def run(ctx):
     rep.extra["scenarios"] = len(jobs)
     if jobs:
         rep.sample({"scenario": {k: v for k, v in jobs[0].items() if k not in ("unrelated", "design")}, "result": results[0]})
+
+
+def with_spare(d):
+    import copy
+    d2 = copy.deepcopy(d)
+    top = next(m for m in d2["modules"] if m["name"] == d2["top"])
+    top["sigs"].append({"n": "zz_spare", "w": 1, "port": False, "dir": "none"})
+    return d2
 
 
 def edited_design(d):
